@@ -214,7 +214,9 @@ impl ToZinc for Str {
 impl ToZinc for Ref {
     fn to_zinc<W: std::io::Write>(&self, writer: &mut W) -> Result<()> {
         if let Some(dis) = &self.dis {
-            writer.write_fmt(format_args!("@{} \"{}\"", self.value, dis))?
+            writer.write_fmt(format_args!("@{} ", self.value))?;
+            // The display name is a Zinc Str literal, escape it the same way
+            Str::from(dis.as_str()).to_zinc(writer)?
         } else {
             writer.write_fmt(format_args!("@{}", self.value))?
         }
@@ -253,11 +255,13 @@ impl ToZinc for XStr {
         let mut chars = self.r#type.chars();
         let first = chars.next().map(|c| c.to_uppercase().to_string());
         writer.write_fmt(format_args!(
-            "{}{}(\"{}\")",
+            "{}{}(",
             first.unwrap_or_default(),
-            chars.as_str(),
-            self.value
+            chars.as_str()
         ))?;
+        // The value is a Zinc Str literal, escape it the same way
+        Str::from(self.value.as_str()).to_zinc(writer)?;
+        writer.write_all(b")")?;
         Ok(())
     }
 }
